@@ -91,7 +91,7 @@ def mc_configs(thorough):
         c.update({
             "mc-3x-msg-scopes": (cfg(msgs=3, ips=2, srcs=2, dsts=1, nall="0,1,2", nip="0,1,2", nsrc="0,1,2",
                                      ndst="0"), 5),
-            "mc-3x-remote": (cfg(msgs=3, ips=1, srcs=2, dsts=2, nall="0,1", nip="0", nsrc="0,1", ndst="1,2",
+            "mc-3x-remote": (cfg(msgs=3, ips=1, srcs=1, dsts=2, nall="0,1", nip="0", nsrc="0,1", ndst="1,2",
                                  remote=True), 5),
             "mc-3x-endpoint": (cfg(msgs=3, ips=2, srcs=2, dsts=1, nall="0,1,2", nip="0,1", nsrc="0,1,2", ndst="0",
                                    endp=True), 5),
